@@ -55,6 +55,11 @@ CHECKS = {
          "Seeded search over change histories (insert/delete/replace, multi-change batches, full-text changes, positions at/after line end and EOF, close/re-open, several documents; texts with Latin-1, CJK, astral, ZWJ, combining marks, CRLF/lone CR/mixed terminators) against the real StLanguageServer behind tower_lsp::LspService driven in-process: after every notification the server's document text must equal the editor's buffer byte for byte; offset<->position conversion must be the identity on every denotable boundary; at query points documentSymbol / semanticTokens (full, delta, range) / diagnostics / formatting / rangeFormatting / documentHighlight must equal those of a twin server that only saw the final text, and positions must equal those of an ASCII/LF projection of the text. Sampling, not proof.",
          "Trusts the editor model (LSP 3.17 position rules), the H8 accessors, and that tower-lsp's in-process Service::call path equals the stdio path. stdio transport and background indexer are not run. Two open findings (rangeFormatting on lone-CR documents, semanticTokens/range origin) are pinned.",
          "DESIGN.md section 5 C14"),
+ "C11": ("fault_enumeration",
+         "deterministic simulation with storage-fault enumeration: compiler-emitted STBC containers under every truncation, 1-3 bit flips (CRC flag hit), 4-byte field blow-ups, zeroed ranges and torn mixes of two containers; decode/validate/metadata under a counting allocator; hot reload of validated containers into a running world at an arbitrary cycle",
+         "Partial claim: for containers emitted by the real compiler from ProgGen projects - validate holds, decode(encode(m)) = m and encode(decode(b)) = b exactly; EVERY truncation (complete for containers <= 6000 bytes) and seeded k-bit flips (k <= 3, half with the header CRC flag flipped so the section decoders are reached), 0xFF / inflated 4-byte fields with the CRC flag cleared, zeroed ranges and torn old/new mixes must go through decode, validate and metadata without panic, abort or a single allocation above 256 x size + 1 MiB; every damaged container that still validates, the clean container and a sibling project's container are hot reloaded into a running world after k cycles, which must neither panic nor stop cycling. Not claimed: arbitrary adversarial byte strings with recomputed checksums.",
+         "Trusts the counting allocator's single-request high-water mark as the memory observable and the corruption kinds as representative for storage faults. Atomicity of a rejected reload is not judged (the property states only 'without panicking'); image sizes requested by a validated container are reported as a probe.",
+         "DESIGN.md section 3 C11"),
  "C09": ("exploration",
          "deterministic simulation: seeded retain-qualified programs x histories of cycles / restarts / saves / power cycles / value faults, differential twin (fresh runtime + model's retained set) driven in lock-step",
          "Seeded search over programs (13 retainable shapes x 4 qualifiers x global/program level, SINGLE variable with seeded init and qualifier, event + cyclic + background programs, task-bound FB instance, %I/%Q bindings, VAR_ACCESS paths) and histories; after every warm/cold restart and power cycle a newly built runtime plus the model's retained set is driven with the same operations and compared after every one: all variables, output image, time, cycle counter, fault latch, executed tasks, access-path reads. Sampling, not proof.",
